@@ -1,27 +1,24 @@
 /-
   Frame lemmas for C07: the follower's direct-extension path (filterBlock and everything below it in MW.Model.Ledger)
-  never touches the wallet-status bucket.  The ledger model writes its loops in `do` notation; `forIn_inv` is the
-  invariant rule for such a loop in the `Except` monad, and the bodies are taken apart by repeated `split`.
+  never touches the wallet-status bucket — for ANY store (no invariant needed; the ledger library proves the same
+  under `Inv` as part of `connect_sound`).  The pending-side functions are covered by `MinedEq` (MW.Lemmas.LedgerFrame);
+  the mined side (spendOne / creditOne / recordMinedTx / putSyncedTo) is done here by a `foldlM` invariant rule.
 -/
 import MW.Model.Ledger
+import MW.Lemmas.LedgerFrame
 namespace MW.Lemmas.LedgerStatus
-open MW MW.Model.Ledger
+open MW MW.Model.Ledger MW.Lemmas.Ledger
 
-theorem forIn_inv {α β ε : Type} (P : β → Prop) (l : List α) (f : α → β → Except ε (ForInStep β)) (init b' : β)
-    (h0 : P init)
-    (hf : ∀ a b r, P b → f a b = .ok r → P (match r with | .done x => x | .yield x => x))
-    (h : forIn l init f = .ok b') : P b' := by
-  induction l generalizing init with
-  | nil => simp [forIn] at h; cases h; exact h0
+/-- invariant rule for a `foldlM` loop in the error monad -/
+theorem foldlM_inv {α β : Type} (P : β → Prop) (f : β → α → M β) (hf : ∀ b a b', P b → f b a = .ok b' → P b')
+    (l : List α) (b b' : β) (h0 : P b) (h : l.foldlM f b = .ok b') : P b' := by
+  induction l generalizing b with
+  | nil => simp only [List.foldlM_nil] at h; cases h; exact h0
   | cons a l ih =>
-    simp only [List.forIn_cons] at h
-    cases hfa : f a init with
-    | error e => simp [hfa, bind, Except.bind] at h
-    | ok r =>
-      simp only [hfa, bind, Except.bind] at h
-      cases r with
-      | done x => simp at h; cases h; exact hf a init _ h0 hfa
-      | yield x => exact ih x (hf a init _ h0 hfa) h
+    simp only [List.foldlM_cons] at h
+    cases hfa : f b a with
+    | error e => rw [hfa] at h; cases h
+    | ok b1 => rw [hfa] at h; exact ih b1 (hf b a b1 h0 hfa) h
 
 theorem foldl_status {α : Type} (f : Store → α → Store) (hf : ∀ s a, (f s a).status = s.status) (l : List α) (s : Store) :
     (l.foldl f s).status = s.status := by
@@ -29,126 +26,80 @@ theorem foldl_status {α : Type} (f : Store → α → Store) (hf : ∀ s a, (f 
   | nil => rfl
   | cons a l ih => simp only [List.foldl_cons]; rw [ih, hf]
 
+theorem spendOne_status (tr : TxRec) (blk : BlockMeta) (sb sb' : Store × Bals) (rel : Rel)
+    (h : spendOne tr blk sb rel = .ok sb') : sb'.1.status = sb.1.status := by
+  unfold spendOne at h
+  simp only [throw, throwThe, MonadExceptOf.throw, pure, Except.pure] at h
+  repeat' split at h
+  all_goals first | (cases h; done) | (cases h; rfl)
+
 theorem updateMinedBalance_status (s s' : Store) (bals bals' : AMap.T Wid Nat) (tr : TxRec) (blk : BlockMeta)
     (h : updateMinedBalance s bals tr blk = .ok (s', bals')) : s'.status = s.status := by
   unfold updateMinedBalance at h
-  simp only [bind, Except.bind, pure, Except.pure] at h
+  exact foldlM_inv (fun (sb : Store × Bals) => sb.1.status = s.status) _
+    (fun b a b' hb hs => (spendOne_status tr blk b b' a hs).trans hb) _ _ _ rfl h
+
+theorem creditOne_status (p : Params) (tr : TxRec) (blk : BlockMeta) (sb sb' : Store × Bals) (rel : Rel)
+    (h : creditOne p tr blk sb rel = .ok sb') : sb'.1.status = sb.1.status := by
+  unfold creditOne at h
+  simp only [throw, throwThe, MonadExceptOf.throw, pure, Except.pure] at h
   split at h
-  · simp at h
-  · rename_i r hr
-    simp at h
-    obtain ⟨rfl, rfl⟩ := h
-    refine forIn_inv (fun (r : Store × AMap.T Wid Nat) => r.1.status = s.status) _ _ _ _ rfl ?_ hr
-    intro a b r hb hfa
-    simp only [throw, throwThe, MonadExceptOf.throw] at hfa
-    iterate 14 (all_goals (try (first | (simp at hfa; done) | split at hfa)))
-    all_goals (try simp at hfa)
-    all_goals (try (subst hfa; simpa using hb))
+  · cases h
+  · cases h; rfl
 
 theorem addCredits_status (p : Params) (s s' : Store) (bals bals' : AMap.T Wid Nat) (tr : TxRec) (blk : BlockMeta)
     (h : addCredits p s bals tr blk = .ok (s', bals')) : s'.status = s.status := by
   unfold addCredits at h
-  simp only [bind, Except.bind, pure, Except.pure] at h
   split at h
-  · simp at h; rw [h.1]
-  · split at h
-    · simp at h
-    · rename_i r1 hr1
-      split at h
-      · simp at h
-      · rename_i r2 hr2
-        simp at h
-        obtain ⟨rfl, rfl⟩ := h
-        have h1 : r1.1.status = s.status := by
-          refine forIn_inv (fun (r : Store × AMap.T Wid Nat) => r.1.status = s.status) _ _ _ _ rfl ?_ hr1
-          intro a b r hb hfa
-          simp only [throw, throwThe, MonadExceptOf.throw] at hfa
-          iterate 8 (all_goals (try (first | (simp at hfa; done) | split at hfa)))
-          all_goals (try simp at hfa)
-          all_goals (try (subst hfa; simpa using hb))
-        refine forIn_inv (fun (r : Store) => r.status = s.status) _ _ _ _ h1 ?_ hr2
-        intro a b r hb hfa
-        simp at hfa
-        subst hfa
-        simpa using hb
+  · cases h; rfl
+  · simp only [bind, Except.bind, pure, Except.pure] at h
+    split at h
+    · cases h
+    · rename_i r hr
+      cases h
+      rw [foldl_status (gameOne tr blk) (fun _ _ => rfl)]
+      exact foldlM_inv (fun (sb : Store × Bals) => sb.1.status = s.status) _
+        (fun b a b' hb hs => (creditOne_status p tr blk b b' a hs).trans hb) _ _ _ rfl hr
 
-theorem deleteUnminedInputs_status (s : Store) (tx : Tx) : (deleteUnminedInputs s tx).status = s.status := by
-  unfold deleteUnminedInputs
-  apply foldl_status
-  intro s a
-  split <;> rfl
+theorem deleteUnminedInputs_status (s : Store) (tx : Tx) : (deleteUnminedInputs s tx).status = s.status :=
+  (minedEq_deleteUnminedInputs s tx).status
 
-theorem deleteUnminedCredits_status (s : Store) (tx : Tx) : (deleteUnminedCredits s tx).status = s.status := by
-  unfold deleteUnminedCredits
-  apply foldl_status
-  intro s a; rfl
+theorem deleteUnminedCredits_status (s : Store) (tx : Tx) : (deleteUnminedCredits s tx).status = s.status :=
+  (minedEq_deleteUnminedCredits s tx).status
 
 theorem removeUnminedGameHistory_status (own : Own) (s : Store) (tx : Tx) :
-    (removeUnminedGameHistory own s tx).status = s.status := by
-  unfold removeUnminedGameHistory
-  apply foldl_status
-  intro s a
-  split
-  · split <;> rfl
-  · rfl
+    (removeUnminedGameHistory own s tx).status = s.status :=
+  (minedEq_removeUnminedGameHistory own s tx).status
 
 theorem removeConflict_status (own : Own) (fuel : Nat) (s : Store) (tx : Tx) :
-    (removeConflict own fuel s tx).status = s.status := by
-  induction fuel generalizing s tx with
-  | zero => rfl
-  | succ n ih =>
-    unfold removeConflict
-    simp only
-    rw [removeUnminedGameHistory_status, deleteUnminedInputs_status]
-    apply foldl_status
-    intro s i
-    simp only
-    rw [foldl_status]
-    intro s sp
-    split
-    · exact ih _ _
-    · rfl
+    (removeConflict own fuel s tx).status = s.status :=
+  (minedEq_removeConflict own fuel s tx).status
 
 theorem removeDoubleSpends_status (own : Own) (s : Store) (tr : TxRec) :
-    (removeDoubleSpends own s tr).status = s.status := by
-  unfold removeDoubleSpends
-  simp only
-  rw [deleteUnminedInputs_status]
-  apply foldl_status
-  intro s rel
-  split
-  · apply foldl_status
-    intro s ds
-    split
-    · exact removeConflict_status _ _ _ _
-    · rfl
-  · rfl
+    (removeDoubleSpends own s tr).status = s.status :=
+  (minedEq_removeDoubleSpends own s tr).status
 
 theorem insertMinedTx_status (own : Own) (s s' : Store) (bals bals' : AMap.T Wid Nat) (tr : TxRec) (blk : BlockMeta)
     (ex : Bool) (h : insertMinedTx own s bals tr blk = .ok (s', bals', ex)) : s'.status = s.status := by
   unfold insertMinedTx at h
-  simp only [bind, Except.bind, pure, Except.pure] at h
   split at h
-  · simp at h; rw [h.1]
-  · split at h
-    · simp at h
+  · cases h; rfl
+  · simp only [bind, Except.bind, pure, Except.pure] at h
+    split at h
+    · cases h
     · rename_i r hr
       obtain ⟨s1, b1⟩ := r
-      have hu := updateMinedBalance_status _ _ _ _ _ _ hr
-      simp at h
-      obtain ⟨rfl, rfl, rfl⟩ := h
-      rw [removeDoubleSpends_status]
-      split
-      · simp only [deleteUnminedCredits_status]
-        rw [hu]; split <;> rfl
-      · rw [hu]; split <;> rfl
+      cases h
+      rw [removeDoubleSpends_status, (minedEq_unpendMined s1 tr.tx).status,
+        updateMinedBalance_status _ _ _ _ _ _ hr]
+      rfl
 
 theorem addRelevantMined_status (p : Params) (own : Own) (s s' : Store) (bals bals' : AMap.T Wid Nat) (tr : TxRec)
     (blk : BlockMeta) (h : addRelevantMined p own s bals tr blk = .ok (s', bals')) : s'.status = s.status := by
   unfold addRelevantMined at h
   simp only [bind, Except.bind] at h
   split at h
-  · simp at h
+  · cases h
   · rename_i r hr
     obtain ⟨s1, b1, ex⟩ := r
     simp only at h
@@ -156,58 +107,56 @@ theorem addRelevantMined_status (p : Params) (own : Own) (s s' : Store) (bals ba
 
 theorem putSyncedTo_status (s s' : Store) (blk : BlockMeta) (h : putSyncedTo s blk = .ok s') : s'.status = s.status := by
   unfold putSyncedTo at h
-  simp only [bind, Except.bind, pure, Except.pure, throw, throwThe, MonadExceptOf.throw] at h
-  iterate 4 (all_goals (try (first | (simp at h; done) | split at h)))
-  all_goals (try simp at h)
-  all_goals (try (subst h; rfl))
+  simp only [throw, throwThe, MonadExceptOf.throw, pure, Except.pure] at h
+  repeat' split at h
+  all_goals first | (cases h; done) | (cases h; rfl)
 
+theorem applyRelevant_status (c : Ctx) (s s' : Store) (ready : List Wid) (bm : BlockMeta) (rel : List TxRec)
+    (h : applyRelevant c s ready bm rel = .ok s') : s'.status = s.status := by
+  unfold applyRelevant at h
+  split at h
+  · cases h; rfl
+  · simp only [bind, Except.bind, pure, Except.pure] at h
+    split at h
+    · cases h
+    · rename_i r hr
+      cases h
+      exact foldlM_inv (fun (sb : Store × Bals) => sb.1.status = s.status) _
+        (fun b a b' hb hs => (addRelevantMined_status c.p c.own b.1 b'.1 b.2 b'.2 a bm hs).trans hb) _ _ _ rfl hr
 
-/-- **filterBlock never touches the wallet-status bucket** (filterBlock + onRelevantBlockConnected + SetSyncedTo) -/
+/-- **filterBlock never touches the wallet-status bucket** (filterBlock + onRelevantBlockConnected + the conflict
+    purge through irrelevant transactions + SetSyncedTo) -/
 theorem filterBlock_status (c : Ctx) (s s' : Store) (ready : List Wid) (b : Block) (conf : List TxId)
     (h : filterBlock c s ready b = .ok (s', conf)) : s'.status = s.status := by
   unfold filterBlock at h
-  simp only [bind, Except.bind, pure, Except.pure, throw, throwThe, MonadExceptOf.throw] at h
+  simp only [throw, throwThe, MonadExceptOf.throw] at h
+  -- the tail shared by both branches: applyRelevant, purge, putSyncedTo
+  have tail : ∀ (rel : List TxRec) (txs : List Tx),
+      (applyRelevant c s ready ⟨b.height, b.id⟩ rel >>= fun s1 =>
+        putSyncedTo (purgeUnrelated c.own s1 txs) ⟨b.height, b.id⟩ >>= fun s2 =>
+          (pure (s2, rel.map (·.tx.id)) : M (Store × List TxId))) = .ok (s', conf) → s'.status = s.status := by
+    intro rel txs ht
+    simp only [bind, Except.bind, pure, Except.pure] at ht
+    split at ht
+    · cases ht
+    · rename_i s1 hs1
+      split at ht
+      · cases ht
+      · rename_i s2 hs2
+        cases ht
+        rw [putSyncedTo_status _ _ _ hs2, (minedEq_purgeUnrelated c.own s1 _).status]
+        exact applyRelevant_status c s s1 ready _ rel hs1
   split at h
+  · cases h
   · split at h
     · cases h
-    · split at h
-      · -- some wallet is ready: the transactions are filtered
-        split at h
-        · cases h
-        · rename_i v hv
-          split at h
-          · split at h
-            · cases h
-            · rename_i v1 hv1
-              have h1 : v1.1.status = s.status := by
-                refine forIn_inv (fun (r : Store × AMap.T Wid Nat) => r.1.status = s.status) _ _ _ _ rfl ?_ hv1
-                intro a st r hb hfa
-                split at hfa
-                · cases hfa
-                · rename_i v' hv'
-                  cases hfa
-                  simp only
-                  rw [addRelevantMined_status c.p c.own st.1 v'.1 st.2 v'.2 a ⟨b.height, b.id⟩ (by rw [hv'])]
-                  exact hb
-              split at h
-              · cases h
-              · rename_i v2 hv2
-                cases h
-                rw [putSyncedTo_status _ _ _ hv2]
-                exact h1
-          · split at h
-            · cases h
-            · rename_i v1 hv1
-              cases h
-              exact putSyncedTo_status _ _ _ hv1
-      · -- no ready wallet
-        simp only [List.isEmpty_nil, Bool.not_true, Bool.false_eq_true, if_false] at h
-        split at h
-        · cases h
-        · rename_i v1 hv1
-          cases h
-          exact putSyncedTo_status _ _ _ hv1
-  · cases h
+    · by_cases hre : ready.isEmpty = true
+      · simp only [hre, if_true] at h
+        exact tail [] [] h
+      · simp only [hre, Bool.false_eq_true, if_false] at h
+        cases hf : filterTxs c s ready b.id b.txs [] 0 [] with
+        | error e => rw [hf] at h; cases h
+        | ok rel => rw [hf] at h; exact tail rel _ h
 
 /-- **a tip notification that extends the follower's chain changes nobody's status**: an importing wallet stays
     importing (with its cursor), a ready wallet stays ready, a flagged wallet stays flagged. -/
